@@ -89,6 +89,8 @@ impl<'a, I: Read, O: Write> ExecStmt<'a, I, O> {
         block: &Block,
     ) -> visit::Result<Self> {
         while INVERT ^ self.producer().visit_expression(&condition)?.0.is_truthy() {
+            #[cfg(kepler_5_rrss_verif)]
+            crate::verif_hooks::burn_exec();
             self.env.borrow_mut().push_scope();
             self.visit_block(block)?;
             self.env.borrow_mut().pop_scope();
